@@ -14,6 +14,7 @@ from .facts import walk
 from .lin import Lin, feasible, entails, model
 
 import os
+import time
 DEBUG_LOOPS = bool(os.environ.get("LA_DEBUG_LOOPS"))
 _ctr = [0]
 
@@ -145,6 +146,7 @@ def pointee_size(n, records=None):
 
 class Cap(object):
     MAX_STATES = 400
+    time_budget = None      # seconds per analysed function (all entry states together); None = unbounded
     MAX_INLINE = 2
     skip_debug_arms = True
     check_progress = False
@@ -163,6 +165,7 @@ class Cap(object):
         self.seen_obl = {}
         self.peeling = False
         self.loop_stack = []
+        self.deadline = None          # absolute time after which run_function() abandons the current entry state
 
     # ------------------------------------------------------------------ obligations
     def oblige(self, st, kind, node, goal, detail, fn=None):
@@ -1764,6 +1767,8 @@ class Cap(object):
         self.nstates += 1
         if self.nstates > 150000:
             raise TooManyStates()
+        if self.deadline is not None and (self.nstates & 63) == 0 and time.time() > self.deadline:
+            raise TooManyStates()          # wall-clock budget of this function used up: the exploration is partial (noted)
         k = n.get("k")
         out = {"norm": [], "brk": [], "cont": [], "ret": []}
         if k == "block":
@@ -2514,6 +2519,8 @@ class Cap(object):
         rets = []
         for st in entry_states:
             self.nstates = 0
+            if self.time_budget is not None and self.deadline is None:
+                self.deadline = time.time() + self.time_budget
             try:
                 o = self.exec(fn.body, st)
             except TooManyStates:
